@@ -68,12 +68,10 @@ let eval_extra = function
     let put l = List.mapi (fun i x -> if pre >= 0 && i >= pre && i < pre + n then List.nth l (i - pre) else x) base in
     (match k with
      | "Z" -> Some (show_res str_ints (M.zero_view 0 base v))
-     | "V" -> Some (str_ints (put (List.rev vals)))             (* reference only: slices.Reverse *)
-     | _ ->                                                     (* reference only: slices.Compact clears the tail *)
-       let c = compact vals in
-       let k = List.length c in
-       let r = { M.voff = v.M.voff; M.vlen = z k; M.vcap = v.M.vcap } in
-       Some (show_view v r ^ " " ^ str_ints (put (c @ List.init (n - k) (fun _ -> 0)))))
+     | "V" -> Some (show_res (fun l' -> str_ints (M.splice base v l')) (M.reverse_impl (M.window base v)))
+     | _ ->
+       ignore put;
+       Some (show_res (fun (r, l') -> show_view v r ^ " " ^ str_ints (M.splice base v l')) (M.dedup_view (fun a b -> a = b) 0 (M.window base v) v)))
   | _ -> None
 
 (* ---- zero-size elements, lengths beyond 2^62 (known finding F13): length-only models ---- *)
@@ -170,7 +168,50 @@ let eval_x = function
      | _ -> "?")
   | _ -> None
 
+
+(* ---- Y lines (round 7): Reverse, Dedup, Select, MatchingKeys at several element types
+   (harness/cmd/sliceutiltrace/more.go).  Elements are codes; the element type matters through the
+   equality Dedup uses (float64: NaN is not equal to itself, -0.0 == +0.0) and the zero value. ---- *)
+let y_outside = 30
+let y_zero ty = if ty = "f" then -3 else -9
+let y_is_zero c = c = -2 || c = -3
+let y_eqb ty a b = if ty = "f" then (a = b && a <> -1) || (y_is_zero a && y_is_zero b) else a = b
+let y_keep mask c = let k = if c < 0 then c + 62 else c in k >= 0 && k < 62 && (mask lsr k) land 1 = 1
+let y_val k = if k mod 4 = 3 then -1 else (7 * k + 3) mod 13
+let y_mk pre extra vals =
+  if pre < 0 then ([], { M.voff = z 0; M.vlen = z 0; M.vcap = z 0 }) else
+  let n = List.length vals in
+  let a = Array.of_list vals in
+  (List.init (pre + n + extra) (fun j -> if j >= pre && j < pre + n then a.(j - pre) else y_outside + j),
+   { M.voff = z pre; M.vlen = z n; M.vcap = z (n + extra) })
+let y_keys s = if s = "nil" then [] else ints_of s
+
+let eval_y = function
+  | ["Y"; "V"; _; pre; extra; vals] ->
+    let (base, v) = y_mk (int_of_string pre) (int_of_string extra) (ints_of vals) in
+    Some (show_res (fun l' -> str_ints (M.splice base v l')) (M.reverse_impl (M.window base v)))
+  | ["Y"; "D"; ty; pre; extra; vals] ->
+    let pre = int_of_string pre in
+    let (base, v) = y_mk pre (int_of_string extra) (ints_of vals) in
+    Some (show_res (fun (r, l') ->
+        show_view v r ^ " " ^ str_ints (M.window (M.splice base v l') r) ^ " " ^ str_ints (M.splice base v l') ^ (if pre < 0 then " N" else " S"))
+      (M.dedup_view (y_eqb ty) (y_zero ty) (M.window base v) v))
+  | ["Y"; "L"; _; pre; extra; vals; mask; m; _] ->
+    let (base, v) = y_mk (int_of_string pre) (int_of_string extra) (ints_of vals) in
+    let ((got, _), calls) = M.select_loop (M.take_consumer (z (int_of_string m))) (y_keep (int_of_string mask)) (M.window base v) ([], z 0) (z 0) in
+    Some (Printf.sprintf "%s %d %d %s" (str_ints got) (int_of_z calls) (List.length got) (str_ints base))
+  | ["Y"; "K"; _; _; keys; mask; m] ->
+    (* the number of keys delivered and, when the consumer never stops, their set do not depend on
+       the order the map is visited in: the loop model runs on the keys in the order listed *)
+    let m = int_of_string m in
+    let ((got, _), calls) = M.matching_loop (M.take_consumer (z m)) (y_keep (int_of_string mask)) (List.map (fun k -> (k, y_val k)) (y_keys keys)) ([], z 0) (z 0) in
+    Some (if m > 0 then Printf.sprintf "n=%d %d" (List.length got) (List.length got)
+          else Printf.sprintf "%s %d %d" (str_ints (List.sort compare got)) (int_of_z calls) (List.length got))
+  | "Y" :: _ -> Some "?"
+  | _ -> None
+
 let eval inp =
+  match eval_y (words inp) with Some s -> s | None ->
   match eval_x (words inp) with Some s -> s | None ->
   match eval_zero_size M.w64 (words inp) with Some s -> s | None ->
   match eval_extra (words inp) with Some s -> s | None ->
@@ -242,6 +283,89 @@ let check_cover pre n vs =
     pos := !pos + v.len) vs;
   if !pos <> pre + n then bad "subslices cover %d elements, the input has %d" (!pos - pre) n
 
+
+(* ---- Y lines: the doc comments of Reverse, Dedup, Select, MatchingKeys, stated directly on the
+   codes (no model function is called here) ---- *)
+let y_base_after pre extra vals base' =
+  (* the array around the slice must be as it was; returns the slice's elements afterwards *)
+  if pre < 0 then (if base' <> [] then bad "nil slice grew a base"; []) else begin
+    let n = List.length vals in
+    if List.length base' <> pre + n + extra then bad "the backing array has %d elements, expected %d" (List.length base') (pre + n + extra);
+    List.iteri (fun j x -> if (j < pre || j >= pre + n) && x <> y_outside + j then bad "element %d outside the slice changed" j) base';
+    take n (drop pre base')
+  end
+let rec y_firsts ty = function               (* the first element of every run of ==-equal neighbours *)
+  | a :: (b :: _ as r) -> if y_eqb ty b a then a :: y_firsts ty (y_skip ty a r) else a :: y_firsts ty r
+  | l -> l
+and y_skip ty prev = function                (* drops the rest of the run; neighbours are compared pairwise *)
+  | b :: r when y_eqb ty b prev -> y_skip ty b r
+  | l -> l
+let spec_y f out =
+  try
+    let must_not_panic what = if is_panic out || out = "hang" || out = "hang-skipped" || out = "?" then bad "%s: %s" what out in
+    (match f with
+     | ["Y"; "V"; _; pre; extra; vals] ->
+       must_not_panic "Reverse";
+       let pre = int_of_string pre and extra = int_of_string extra and vals = ints_of vals in
+       let w' = y_base_after pre extra vals (ints_of out) in
+       if List.length w' <> List.length vals then bad "Reverse: length changed";
+       let a = Array.of_list vals and n = List.length vals in
+       List.iteri (fun i x -> if x <> a.(n - 1 - i) then bad "Reverse: element %d afterwards is not the element that was at %d" i (n - 1 - i)) w'
+     | ["Y"; "D"; ty; pre; extra; vals] ->
+       must_not_panic "Dedup";
+       let pre = int_of_string pre and extra = int_of_string extra and vals = ints_of vals in
+       let n = List.length vals in
+       (match words out with
+        | [v; elems; base'; nl] ->
+          let v = parse_view v and elems = ints_of elems in
+          let w' = y_base_after pre extra vals (ints_of base') in
+          let want = y_firsts ty vals in
+          let rec adjacent = function a :: (b :: _ as r) -> if y_eqb ty a b then bad "Dedup: two adjacent equal elements remain in the result" else adjacent r | _ -> () in
+          adjacent elems;
+          if elems <> want then bad "Dedup: result is %s, the first element of every run in order is %s" (str_ints elems) (str_ints want);
+          if v.len <> List.length want then bad "Dedup: result length %d" v.len;
+          (match v.off with Some o when o <> max pre 0 -> bad "Dedup: the result is not a prefix of vs (starts at %d)" o | _ -> ());
+          if v.cap <> n + extra then bad "Dedup: capacity %d, a prefix of vs has capacity %d" v.cap (n + extra);
+          if take v.len w' <> want then bad "Dedup: vs does not begin with the kept elements";
+          List.iteri (fun i x -> if i >= v.len && x <> y_zero ty then bad "Dedup: element %d of vs behind the result is not zeroed" i) w';
+          if (nl = "N") <> (pre < 0) then bad "Dedup: nil-ness of the result differs from the input's"
+        | _ -> bad "bad output syntax")
+     | ["Y"; "L"; _; pre; extra; vals; mask; m; _] ->
+       must_not_panic "Select";
+       let pre = int_of_string pre and extra = int_of_string extra and vals = ints_of vals and mask = int_of_string mask and m = int_of_string m in
+       (match words out with
+        | [got; calls; ycalls; base'] ->
+          let got = ints_of got and calls = int_of_string calls and ycalls = int_of_string ycalls in
+          if y_base_after pre extra vals (ints_of base') <> vals then bad "Select: input modified";
+          let sat = List.filter (y_keep mask) vals in
+          let want = if m > 0 then take m sat else sat in
+          if got <> want then bad "Select: delivered %s, the elements satisfying f in order%s are %s" (str_ints got) (if m > 0 then " up to the stop" else "") (str_ints want);
+          if ycalls <> List.length want then bad "Select: yield called %d times for %d values (it was called again after it returned false)" ycalls (List.length want);
+          (* stops when told: f is not asked about anything behind the element the consumer stopped at *)
+          let stopped = m > 0 && List.length sat >= m in
+          let upto = if not stopped then List.length vals else begin
+              let rec pos i k = function [] -> i | x :: r -> if y_keep mask x then (if k + 1 = m then i + 1 else pos (i + 1) (k + 1) r) else pos (i + 1) k r in
+              pos 0 0 vals end in
+          if calls <> upto then bad "Select: f called %d times, expected %d" calls upto
+        | _ -> bad "bad output syntax")
+     | ["Y"; "K"; _; _; keys; mask; m] ->
+       must_not_panic "MatchingKeys";
+       let keys = y_keys keys and mask = int_of_string mask and m = int_of_string m in
+       let matching = List.sort compare (List.filter (fun k -> y_keep mask (y_val k)) keys) in
+       (match words out with
+        | [cnt; ycalls] when m > 0 ->
+          let want = min m (List.length matching) in
+          if cnt <> Printf.sprintf "n=%d" want then bad "MatchingKeys: %s keys delivered, expected %d" cnt want;
+          if int_of_string ycalls <> want then bad "MatchingKeys: yield called %s times for %d keys" ycalls want
+        | [got; calls; ycalls] when m <= 0 ->
+          if ints_of got <> matching then bad "MatchingKeys: delivered %s, the keys whose value satisfies f are %s" got (str_ints matching);
+          if int_of_string calls <> List.length keys then bad "MatchingKeys: f called %s times on a map of %d entries" calls (List.length keys);
+          if int_of_string ycalls <> List.length matching then bad "MatchingKeys: yield called %s times for %d keys" ycalls (List.length matching)
+        | _ -> bad "bad output syntax")
+     | _ -> bad "bad Y line");
+    None
+  with Bad s -> Some s
+
 (* supplementary: what the documentation of Zero, Select, MatchingKeys, MapKeys says, directly *)
 let spec_extra inp out =
   try
@@ -272,6 +396,22 @@ let spec_extra inp out =
        if is_panic out then bad "Zero panics";
        let w' = window_after pre extra vals (ints_of out) in
        if List.exists (fun x -> x <> 0) w' then bad "Zero: a non-zero element remains"
+     | ["V"; pre; extra; vals; _] ->
+       let pre = int_of_string pre and extra = int_of_string extra and vals = ints_of vals in
+       if is_panic out then bad "Reverse panics";
+       if window_after pre extra vals (ints_of out) <> List.rev vals then bad "Reverse: the slice afterwards is not the reverse of what it was"
+     | ["D"; pre; extra; vals; _] ->
+       let pre = int_of_string pre and extra = int_of_string extra and vals = ints_of vals in
+       if is_panic out then bad "Dedup panics";
+       (match words out with
+        | [v; base'] ->
+          let v = parse_view v and w' = window_after pre extra vals (ints_of base') in
+          let want = compact vals and n = List.length vals in
+          if take v.len w' <> want || v.len <> List.length want then bad "Dedup: result is not the first element of every run (%s)" (str_ints want);
+          (match v.off with Some o when o <> max pre 0 -> bad "Dedup: the result is not a prefix of vs" | _ -> ());
+          if v.cap <> n + extra then bad "Dedup: capacity %d, a prefix of vs has capacity %d" v.cap (n + extra);
+          if List.exists (fun x -> x <> 0) (drop v.len w') then bad "Dedup: the elements behind the result are not zeroed"
+        | _ -> bad "bad output syntax")
      | _ -> ());
     None
   with Bad s -> Some s
@@ -432,7 +572,8 @@ let spec_x f out =
 let spec prop inp out =
   if prop = "C17x" then spec_extra inp out else
   if prop <> "C17" then None else
-  match words inp with "E" :: _ -> spec_zero_size inp out | "X" :: _ -> spec_x (words inp) out | _ ->
+  match words inp with "E" :: _ -> spec_zero_size inp out | "X" :: _ -> spec_x (words inp) out | "Y" :: _ -> spec_y (words inp) out
+  | ("L" | "M" | "K" | "Z" | "V" | "D") :: _ -> spec_extra inp out | _ ->
   try
     (match words inp with
      | ["S"; i; ls] ->
